@@ -7,7 +7,7 @@ from ..prims import requires, guard_strs, guarded_any, must_pass
 EXPLANATION = ('Who-may-write and guard rules over the AWS builder: build_final_connect_options starts from the user\'s options and only overrides '
                'username/password (custom auth) and the client id (only when unset); apply_aws_defaults only touches the drain policy and the '
                'retry limit, only for MQTT 3.1.1 with both unset, with the documented constants; the signature is percent-encoded on exactly '
-               'the not-yet-encoded branch; parameter names are the documented constants; both build functions go through these helpers.')
+               'the not-yet-encoded branch; parameter names are the documented constants; both build functions go through these helpers. Added after the mutation sweeps: the AWS builder\'s own setters store their argument.')
 ASSUMPTIONS = ['not decided: that the produced query string decodes back for all inputs; behaviour for a user-supplied *empty* client id',
                'analysed in the `all` feature configuration only (the crate requires a TLS feature)']
 EXTRA_CONFIGS = []
